@@ -302,7 +302,8 @@ pub fn run_c17(ctx: &Ctx, rep: &mut Report) {
                 let (bytes, origin) = {
                     // reuse the malform machinery of c04 on this case
                     let _ = &mut c;
-                    c04::malformed_case(&mut rng, None)
+                    let wide = rng.chance(1, 3);
+                    c04::malformed_case_in(&mut rng, None, wide)
                 };
                 let _ = fi;
                 if let Ok((si, _, _, start)) = flacref::dec::walk_metadata(&bytes, false) {
